@@ -152,7 +152,12 @@ def evaluate(case, out):
         import json as _json
 
         auditfile = _json.loads(_json.dumps({"Audit": {"seed": 1}, "contests": contests_in_log}))   # as read from the log file
-        candfile = {"List": [{"Id": int(c), "Description": f"cand {c}"} for c in cands]}
+        # the candidate manifest may not list every candidate of the contest (a write-in, a manifest exported for other
+        # contests): such a candidate is still a candidate, its name is reported as ''
+        unlisted = [c for k, c in enumerate(cands) if c != case["winner"] and (k + len(js)) % 4 == 0] if len(cands) >= 3 else []
+        candfile = {"List": [{"Id": int(c), "Description": f"cand {c}"} for c in cands if c not in unlisted]}
+        if unlisted:
+            out.cls("candidate-missing-from-the-manifest")
         try:
             with contextlib.redirect_stdout(io.StringIO()):
                 if explicit:
